@@ -410,6 +410,12 @@ type c05Op struct {
 }
 
 func writeC05Reads(t *Toks, h *rtp.Header, extra []uint8) {
+	t.Bool(h.Extension)
+	if h.Extension {
+		t.Nat(int(h.ExtensionProfile))
+	} else {
+		t.Nat(0)
+	}
 	ids := h.GetExtensionIDs()
 	t.Nat(len(ids))
 	for _, id := range ids {
@@ -448,7 +454,7 @@ func observeC05(c *Case, desc *PacketIn, wire []byte, ops []c05Op) {
 	}
 	o := &c.O
 	if !startOk {
-		o.Bool(false).Nat(0).Nat(0).Nat(0).Nat(0).Bool(false).Nat(0).Err("other").Err("other").Nat(0)
+		o.Bool(false).Nat(0).Bool(false).Nat(0).Nat(0).Nat(0).Nat(0).Bool(false).Nat(0).Err("other").Err("other").Nat(0)
 		c.Trivial()
 		return
 	}
